@@ -247,6 +247,8 @@ class TlsExtensionServerNameClient(TlsExtensionParsed):
 
         try:
             host_name = six.ensure_text(bytes(bytearray(parser['server_name'])), 'idna')
+            # the codec decodes names it cannot encode (empty label, label longer than 63 octets)
+            six.ensure_binary(host_name, 'idna')
         except UnicodeError as e:
             six.raise_from(InvalidValue(bytes(bytearray(parser['server_name'])), cls, 'host_name'), e)
 
